@@ -2091,7 +2091,7 @@ def c06(case):
                 # the division aliquot unless divisions are suppressed (the harness rendered the numbers, it knows them)
                 pre = (el["div_prefix"] + " of ") if el["kind"] == "DIV" and not a["suppress"] else ""
                 part["lots_ok"] = p["raw_lots"] == ["%sL%d" % (pre, n) for n in el["want_lots"]] and not p["raw_qqs"]
-            if el["kind"] == "ALQ":
+            if el["kind"] in ("ALQ", "ALL"):
                 part["lots_ok"] = not p["raw_lots"]
                 part["pieces"] = [(tokenize_piece(q) if isinstance(q, str) else None) or ["?" + str(q)[:20]] for q in p["raw_qqs"]]
             parts.append(part)
